@@ -2,9 +2,10 @@
 
 Engine A: all event sequences up to a depth bound over {viewer sends, sim sends (reliable or not, with or without a
 piggy-backed ack), proxy injects either way (reliable or not), an addon drops the packet, either side sends a
-PacketAck, clock advances + resend timer} through the real handle_proxied_packet / ProxiedCircuit / InjectionTracker,
-compared step by step with an abstract reference model (sets of ids each endpoint sent, the wire<->endpoint id
-bijection, injected wire ids, pending reliable injections).
+PacketAck (one body id; one body id + one appended ack; two body ids), clock advances + resend timer} through the real
+handle_proxied_packet / ProxiedCircuit / InjectionTracker, compared step by step with an abstract reference model (sets
+of ids each endpoint sent, the wire<->endpoint id bijection, injected wire ids, pending reliable injections).  The
+multi-id PacketAck forms are what lets a single acknowledgement packet mix ids of injected and of real packets.
 """
 from vlib.harness import harness, shard
 from harness import proxyfix as px
@@ -57,10 +58,10 @@ class World:
 
 
 # event kinds
-E_FWD, E_FWD_REL, E_FWD_ACK, E_INJ, E_INJ_REL, E_DROP_REL_ACK, E_PACKETACK, E_TIMER, E_PACKETACK_PLUS = range(9)
-NE = 9
+E_FWD, E_FWD_REL, E_FWD_ACK, E_INJ, E_INJ_REL, E_DROP_REL_ACK, E_PACKETACK, E_TIMER, E_PACKETACK_PLUS, E_PACKETACK_TWO = range(10)
+NE = 10
 KINDS = ["fwd", "fwd_reliable", "fwd_with_ack", "inject", "inject_reliable", "drop_reliable_with_ack", "packetack", "timer",
-         "packetack_plus_appended"]
+         "packetack_plus_appended", "packetack_two_blocks"]
 
 
 def step(f, w: World, dropper, kind, outgoing, pick):
@@ -106,7 +107,7 @@ def step(f, w: World, dropper, kind, outgoing, pick):
     acks = ()
     body_ids = ()
     received = r.seen_wire
-    if kind in (E_FWD_ACK, E_DROP_REL_ACK, E_PACKETACK, E_PACKETACK_PLUS):
+    if kind in (E_FWD_ACK, E_DROP_REL_ACK, E_PACKETACK, E_PACKETACK_PLUS, E_PACKETACK_TWO):
         if not received:
             return True                       # nothing to acknowledge yet: event not applicable
         acks = (received[pick % len(received)],)
@@ -116,6 +117,13 @@ def step(f, w: World, dropper, kind, outgoing, pick):
             return True                       # needs two distinct received ids: not applicable yet
         body_ids = acks
         acks = (received[(pick + 1) % len(received)],)
+    if kind == E_PACKETACK_TWO:
+        # a standalone PacketAck whose body acknowledges two distinct received ids (either order; any mix of ids of
+        # injected and of forwarded packets), nothing appended
+        if len(received) < 2:
+            return True                       # needs two distinct received ids: not applicable yet
+        body_ids = (acks[0], received[(pick + 1) % len(received)])
+        acks = ()
     own = s.next_own
     s.next_own += 1
     reliable = kind in (E_FWD_REL, E_DROP_REL_ACK)
@@ -124,6 +132,8 @@ def step(f, w: World, dropper, kind, outgoing, pick):
     elif kind == E_PACKETACK_PLUS:
         msg = Message("PacketAck", *[Block("Packets", ID=a) for a in body_ids], packet_id=own, flags=ACK, acks=acks,
                       direction=d)
+    elif kind == E_PACKETACK_TWO:
+        msg = Message("PacketAck", *[Block("Packets", ID=a) for a in body_ids], packet_id=own, flags=0, direction=d)
     else:
         msg = px.chat(own, reliable=reliable, outgoing=outgoing, acks=acks)
     if kind == E_DROP_REL_ACK:
@@ -183,6 +193,24 @@ def step(f, w: World, dropper, kind, outgoing, pick):
         s.seen_wire.append(wire)
         s.highest = max(s.highest, wire)
         return all(a in r.wire_of for a in shown)
+    if kind == E_PACKETACK_TWO:
+        # the body that reaches the receiver holds exactly the non-injected ids, translated, in the order given, each once;
+        # if both ids belong to injections the packet never leaves the proxy
+        if not shown:
+            s.highest = max(s.highest, wire)
+            return not new
+        if len(new) != 1:
+            return False
+        x = new[0]
+        if x.obj is not msg or x.direction != d or x.packet_id != wire or x.ids != tuple(shown) or x.acks != ():
+            return False
+        if x.flags & ACK or x.flags & REL:
+            return False
+        s.wire_of[own] = wire
+        s.own_of[wire] = own
+        s.seen_wire.append(wire)
+        s.highest = max(s.highest, wire)
+        return all(a in r.wire_of for a in shown)
     if kind == E_PACKETACK and not shown:
         # an ack purely for injected packets never leaves the proxy (its id was still consumed by the endpoint)
         s.highest = max(s.highest, wire)
@@ -224,9 +252,10 @@ _PRE3 = ["0 <= k0 < NE", "0 <= k1 < NE", "0 <= k2 < NE", "0 <= p1 <= 2", "0 <= p
 
 
 @harness(pre=_PRE3, post="_", timeout=600,
-         note="all 3-event histories over 8 event kinds x direction (each event) x choice of acknowledged id: every ack shown "
+         note="all 3-event histories over 10 event kinds x direction (each event) x choice of acknowledged id(s): every ack shown "
               "to an endpoint is translated to an id that endpoint sent, acks for injected ids never leave the proxy and "
-              "complete the injection's future, a dropped reliable packet is acked to its sender and its piggy-backed acks are "
+              "complete the injection's future - also when one PacketAck mixes an injected id with a real one (body + appended, "
+              "or two body blocks in either order: exactly the real id comes out, once) - a dropped reliable packet is acked to its sender and its piggy-backed acks are "
               "forwarded in a separate PacketAck, injected ids are fresh, forwarded ids follow the reference bijection, reliable "
               "injections are re-sent with the same id + RESENT by the timer",
          covers=COVERS)
@@ -248,9 +277,11 @@ for _w in shard(histories4, "k0", range(NE), KINDS, globals()):
     shard(_w, "k1", range(NE), KINDS, globals())
 
 EVIDENCE = {
-    "bounds": "event sequences of length 3 (quick) / 4 (thorough) from the initial circuit state over 8 event kinds, direction "
-              "symbolic per event, acknowledged id chosen symbolically among the wire ids the sender has received",
-    "outside": "longer histories, tracker windows beyond a handful of injections (C04 covers the tracker for windows <= 4 from "
+    "bounds": "event sequences of length 3 (quick) / 4 (thorough) from the initial circuit state over 10 event kinds (incl. PacketAck "
+              "with one body id, one body id + one appended ack, two body ids), direction symbolic per event, acknowledged id(s) "
+              "chosen symbolically among the wire ids the sender has received (two-id forms: every ordered pair of cyclically "
+              "adjacent received ids, which is all ordered pairs when two ids were received)",
+    "outside": "longer histories, acknowledgement packets naming more than two ids or the same id twice, tracker windows beyond a handful of injections (C04 covers the tracker for windows <= 4 from "
                "arbitrary states), out-of-order endpoint ids, StartPingCheck rewriting; byte codec (snapshot serializer)",
     "assumptions": ["endpoints number their packets 1,2,3,... and only acknowledge ids they have received"],
 }
